@@ -41,7 +41,7 @@ SIG_FLAG = {
 REPAIRED_FLAGS = {"ligNoTemplate": "F12", "startNoMolKeyError": "F22", "molRawRange": "F23", "rwLastWins": "F24", "splitLosesBuild": "F25",
                   "ligIdxIgnoresName": "F26"}
 FLAG_SIG = {v: k for k, v in SIG_FLAG.items()}
-ALL_FLAGS = ["closedRes", "closedMol", "resnameIgnored", "molNameIgnored", "splitDrop", "rwLastWins", "molRawRange",
+ALL_FLAGS = ["breakAtFirstBeyond", "closedRes", "closedMol", "resnameIgnored", "molNameIgnored", "splitDrop", "rwLastWins", "molRawRange",
              "startIdxIgnoresName", "startNoMolKeyError", "startNameIgnored", "ligIdxIgnoresName", "ligNoTemplate", "splitLosesBuild"]
 VOLS = {"W": 0.40, "V": 0.45, "RA": 0.50, "RB": 0.55, "RC": 0.52, "X": 0.43, "Y": 0.47}
 FULL_TIMEOUT = 90
@@ -721,6 +721,11 @@ def random_case(rng):
     for nm in hostn:
         first = rng.choice([1, 1, 2, 3])
         types[nm] = [{"rn": rng.choice(resn), "id": first + k, "atoms": ["a%d" % (j + 1) for j in range(rng.randint(1, 5))]} for k in range(rng.randint(2, 6))]
+        if rng.random() < 0.4:       # listing order of the residues independent of their ids (star / graft / capped molecules)
+            ids = [r["id"] for r in types[nm]]
+            rng.shuffle(ids)
+            for r, i_ in zip(types[nm], ids):
+                r["id"] = i_
     mols = [rng.choice(hostn) for _ in range(rng.randint(2, 7))]
     use_lig = rng.random() < 0.45
     if use_lig:
@@ -815,7 +820,7 @@ def run(tier):
     ck.rule = ("S->I: every case of the families of spec/MC_Select.tla (molecule lists of length 1..%d over 3 names x block header name/lo/hi in 0..5; "
                "residue-name sequences of length 1..4 x directive name/lo/hi; two overlapping/adjacent blocks and residue lines; all 16 omission "
                "patterns of -start / -lig host / -lig ligand specifications x values; every assignment of the atoms of a 2-4 atom residue to "
-               "{stay, X, Y}; two split strings creating the same new residue name in both orders on every chain of 3-4 residues; options addressing split residues) rendered to .top/.bld/option strings and run through the real code; a case is "
+               "{stay, X, Y}; two split strings creating the same new residue name in both orders on every chain of 3-4 residues; every permutation of the residue ids over the listed residues (3-4) x directive; options addressing split residues) rendered to .top/.bld/option strings and run through the real code; a case is "
                "distinct by its abstract input.  I->S: seeded random inputs beyond the bound (2-11 molecules over 5 names, 2-6 residues over 3+ "
                "names, 1-5 atoms, ranges to 9, several blocks/directives/options) judged by SelTrace" % (4 if quick else 5))
     ck.assumptions = [
@@ -870,7 +875,7 @@ def run(tier):
     # ---------------------------------------------------------------- 2. S->I replay (cheap path)
     ck.extra["cases_exported"] = len(cases)
     if quick:   # quick replays a seeded part of the big families (every case of the small ones), thorough everything
-        frac = {"mol": 0.2, "res": 0.25, "mold": 0.25, "lig": 0.3, "multir": 0.4, "multi": 0.5}
+        frac = {"perm": 0.3, "mol": 0.2, "res": 0.25, "mold": 0.25, "lig": 0.3, "multir": 0.4, "multi": 0.5}
         cases = [cs for cs in cases if rng.random() < frac.get(cs["c"]["fam"], 1.0)]
     ck.stage("S->I: replay %d of %d exported cases on the real code" % (len(cases), ck.extra["cases_exported"]))
     wd = c.workdir(PROP, "replay")
@@ -897,8 +902,8 @@ def run(tier):
         raise c.MachineryError("an exported family case is outside InDomain")
     report(ck, todo, v, "S->I replay")
     # ---------------------------------------------------------------- 3. full gen_coords on a stratified subset
-    per = {"start": 12, "start2": 4, "lig": 16, "lig2": 3, "split": 8, "split2": 4, "split3": 6, "combo": 5, "multi": 3, "res": 3, "mol": 3, "multir": 2} if quick else \
-          {"start": 60, "start2": 20, "lig": 120, "lig2": 8, "split": 60, "split2": 30, "split3": 40, "combo": 20, "multi": 30, "res": 30, "mol": 30, "multir": 10}
+    per = {"start": 12, "start2": 4, "lig": 16, "lig2": 3, "split": 8, "split2": 4, "split3": 6, "perm": 4, "permsplit": 4, "combo": 5, "multi": 3, "res": 3, "mol": 3, "multir": 2} if quick else \
+          {"start": 60, "start2": 20, "lig": 120, "lig2": 8, "split": 60, "split2": 30, "split3": 40, "perm": 30, "permsplit": 20, "combo": 20, "multi": 30, "res": 30, "mol": 30, "multir": 10}
     byfam = {}
     for cs in cases:
         if any(l["k"] in ("dist", "pers") for l in cs["c"]["bld"]):
